@@ -129,7 +129,8 @@ pub fn check_stream(c: &StreamCase) -> Result<(), String> {
         _ => {}
     }
     let mut reference: Option<Vec<(String, Result<String, ()>)>> = None;
-    // C07's query clause is scoped to files whose section header table is absent or non-empty
+    // C07's query clause is scoped to files whose section header table is absent or non-empty (a present but empty table
+    // makes the slice parser's dynamic() stop at the section table while the stream parser falls back to PT_DYNAMIC)
     let in_scope = match ElfBytes::<AnyEndian>::minimal_parse(b) { Ok(e) => e.section_headers().map_or(true, |t| t.len() > 0), Err(_) => true };
     if let (Some(sl), Ok(s), true) = (&slice, st.as_mut(), in_scope) {
         let got = stream_answers(s);
